@@ -1,6 +1,6 @@
 SPECIFICATION Spec
-CONSTANT LMax = 3
-CONSTANT LLit = 2
+CONSTANT LMax = 2
+CONSTANT LLit = 1
 CONSTANT Fams = {"grow", "del", "setitem", "setslice", "range", "set", "replace"}
 CONSTANT Depth = 0
 CONSTANT Record = FALSE
